@@ -3,11 +3,53 @@ import drivers.c05  # noqa: F401   (registers the drivers)
 
 PROP = "C05"
 LEVEL = "exploration"
-LEVEL_TEXT = "bounded run-time contracts (work in progress)"
-LEVEL_NOTE = "numpy reference"
+LEVEL_TEXT = ("Bounded run-time contracts only (no deductive part yet): every public decomposition entry point "
+              "(array_split, tensor_split, Tensor.split, TensorNetwork.split, and the generic _default_fn split drivers) is "
+              "executed on ~1e5 (quick) / ~1e6 (thorough) small inputs and its output compared with plain numpy linear algebra: "
+              "reconstruction / Eckart-Young optimality, minimality of the kept rank against an independent implementation of "
+              "the documented cutoff rule, renormalisation, info['error'], isometry of documented / flagged factors, label and "
+              "tag bookkeeping, agreement of the accelerated and generic implementations. Holds on the stated domain only; "
+              "12 genuine defects of the unchanged tree are listed as known findings.")
+LEVEL_NOTE = ("Trusted: numpy.linalg.svd / qr and matrix products as reference; tolerances 1e-9..1e-7 (double), 1e-3 (single), "
+              "looser for Gram-based (svd:eig, qr:cholesky) and iterative methods; values within the tolerance of a cutoff "
+              "threshold are unconstrained (ties).")
 TECHNIQUE = "run-time contracts on the real functions vs independent numpy references over a stated bounded domain (bounded stand-in)"
 E1 = []
 PROVIDERS = []
-TRUSTED = ["numpy / scipy.linalg reference computations"]
-ASSUMPTIONS = []
-EXPLANATION = "wip"
+TRUSTED = [
+    "numpy.linalg.svd / numpy.linalg.qr / matrix products in double precision as reference semantics",
+    "the documented cutoff rule as re-implemented in drivers/c05.py::_rule_k (abs / rel: values above the threshold are kept; "
+    "(r)sum1/2: least k whose discarded tail sum is below the target; never zero; capped by max_bond)",
+]
+ASSUMPTIONS = [
+    "matrices up to 12x12 (iterative drivers and svd:rand sketch regime up to 24x24), tensors with at most 3 labels per side",
+    "info['error'] is compared with sqrt(sum of discarded reference values squared) and with the Frobenius distance to the "
+    "product before renormalisation (with renorm > 0 the distance to the renormalised product is larger by construction)",
+    "renorm=True with cutoff modes abs / rel: the automatic power is not defined by the documentation; any of no "
+    "renormalisation / power 1 / power 2 is accepted",
+    "kept-rank contract: values within delta * s_max of a threshold are unconstrained, delta = 1e-10 (double), 1e-4 (single), "
+    "1e-6 / 5e-3 for the Gram-based svd:eig",
+    "Gram-based methods (svd:eig, qr:cholesky) are exercised on prescribed spectra with condition number <= 7 or exactly "
+    "rank-deficient input; qr:cholesky only in its well-defined orientation (QR forms on tall, LQ forms on wide input); "
+    "svd:rand on the same spectra (its power iterations lose directions with (s_i/s_0)^5 < eps) and with static truncation only, "
+    "as documented",
+    "eigh / eigsh on Hermitian input, square-root forms (both / lsqrt / rsqrt) on positive semi-definite input only; cholesky "
+    "on positive definite input with condition number <= 4",
+    "iterative drivers (svds, isvd, rsvd, eigsh): double precision, dynamic truncation only in mode 'rel' across a spectral "
+    "gap, optimality only for the Krylov drivers and where the kept rank covers the input; other cutoff modes not covered",
+    "rejection of a (method, absorb) combination is accepted only outside the table of combinations promised by the "
+    "documentation (MUST_ACCEPT in the driver); single-factor forms with get=None may be rejected",
+    "the memoised option parsers are cleared before every call in all drivers but 'memoised-options', which tests call-history "
+    "dependence explicitly",
+    "svd:eig on single precision through the accelerated path (known finding C05-12, a failed numba compilation per call) is "
+    "subsampled 1:3 (quick) / 1:12 (thorough)",
+    "batched polar / lu / iterative input and block-sparse / non-numpy backends are not covered",
+]
+EXPLANATION = (
+    "Six bounded drivers. table-untruncated: method x absorb-spelling x cutoff-mode table with cutoff=0 on 2-d and batched "
+    "input (form honesty, reconstruction, placement of the singular values, isometry of the documented factor). truncation: "
+    "svd / svd:eig / eigh / auto over cutoff modes x cutoffs x max_bond x renorm through the accelerated, generic and batched "
+    "paths (kept rank = least satisfying the rule, Eckart-Young error, kept values and renormalisation, info['error'], "
+    "accelerated == generic). svd-rand-and-lu, iterative-methods: the remaining drivers. labelled-entry-points: Tensor.split / "
+    "tensor_split / TensorNetwork.split with permuted labels, empty sides, get / matrix_svals / bond_ind / tags options "
+    "(labels, tags, flags, plus all array contracts on the fused matrix). memoised-options: call-history independence.")
